@@ -180,8 +180,12 @@ pub fn malformed_range(rng: &mut Rng) -> Vec<u8> {
         b"bytes=\xff-1",
         b"bytes=1-2\xc2\xa0",
     ];
-    match rng.below(4) {
+    match rng.below(5) {
         0 | 1 => rng.pick(&FIXED).to_vec(),
+        4 => {
+            let v = render_specs(&[random_rendered(rng, 100), random_rendered(rng, 100)]);
+            mutate_bytes(rng, &v)
+        }
         2 => {
             // mutate a valid header
             let mut v = render_specs(&[random_rendered(rng, 100), random_rendered(rng, 100)]);
@@ -201,6 +205,43 @@ pub fn malformed_range(rng: &mut Rng) -> Vec<u8> {
         }
         _ => random_header_bytes(rng, 12),
     }
+}
+
+/// Byte-level mutation of a (usually grammatical) header value: 1-3 of truncate / delete / insert
+/// / replace / duplicate, the inserted material being grammar punctuation, digits, lone
+/// high bytes, or a whole multi-byte UTF-8 character (a `&str` API handed such a value must not
+/// slice inside one). Everything stays within what `HeaderValue::from_bytes` accepts.
+pub fn mutate_bytes(rng: &mut Rng, base: &[u8]) -> Vec<u8> {
+    const PIECES: [&[u8]; 24] = [
+        b",", b";", b"=", b".", b"-", b"/", b"\"", b"*", b" ", b"\t", b"q", b"W", b"0", b"1", b"9",
+        b"\x80", b"\xff", b"\xc3", b"\xc3\xa9", b"\xe2\x82\xac", b"\xf0\x9f\x98\x80", b"\xc2\xa0",
+        b"\xef\xbb\xbf", b"\xe2\x80\x8b",
+    ];
+    let mut v = base.to_vec();
+    for _ in 0..1 + rng.usize(3) {
+        let pos = rng.usize(v.len() + 1);
+        match rng.below(6) {
+            0 => v.truncate(pos),
+            1 if pos < v.len() => {
+                v.remove(pos);
+            }
+            2 | 3 => {
+                let piece = rng.pick(&PIECES);
+                v.splice(pos..pos, piece.iter().copied());
+            }
+            4 if pos < v.len() => {
+                let piece = rng.pick(&PIECES);
+                v.splice(pos..pos + 1, piece.iter().copied());
+            }
+            5 if pos < v.len() => {
+                let end = (pos + 1 + rng.usize(4)).min(v.len());
+                let dup = v[pos..end].to_vec();
+                v.splice(pos..pos, dup);
+            }
+            _ => {}
+        }
+    }
+    v
 }
 
 /// Arbitrary bytes the `http` crate accepts in a `HeaderValue`: >= 0x20 except 0x7f, or TAB.
@@ -428,10 +469,22 @@ pub fn malformed_ae(rng: &mut Rng) -> Vec<u8> {
         b"gzip;q=1.0000",
         b"identity;q=0,gzip;q=0.+1",
     ];
-    if rng.chance(1, 2) {
-        rng.pick(&FIXED).to_vec()
-    } else {
-        random_header_bytes(rng, 16)
+    match rng.below(4) {
+        0 => rng.pick(&FIXED).to_vec(),
+        1 => random_header_bytes(rng, 16),
+        _ => {
+            const VALID: [&[u8]; 8] = [
+                b"gzip",
+                b"gzip;q=0.5",
+                b"gzip;q=0.123, identity;q=1.000",
+                b"gzip, identity;q=1",
+                b"gzip, *;q=0",
+                b"identity;q=0.5, gzip;q=1.0, br",
+                b"gzip ; q=0.8 , * ; q=0.1",
+                b"*;q=1, gzip;q=0",
+            ];
+            { let b: &[u8] = VALID[rng.usize(VALID.len())]; mutate_bytes(rng, b) }
+        }
     }
 }
 
@@ -462,8 +515,13 @@ pub fn malformed_tags(rng: &mut Rng) -> Vec<u8> {
         b"\"x\",\t\t",
         b"W/W/\"x\"",
     ];
-    match rng.below(3) {
+    match rng.below(4) {
         0 => rng.pick(&FIXED).to_vec(),
+        3 => {
+            let valid: [&[u8]; 4] =
+                [b"\"x\", W/\"y\"", b"W/\"a, b\",\"x\"", b"\"x\"", b"W/\"x\", W/\"x\", \"zz\""];
+            { let b: &[u8] = valid[rng.usize(valid.len())]; mutate_bytes(rng, b) }
+        }
         1 => {
             let valid: [&[u8]; 4] = [
                 b"\"x\", W/\"y\"",
